@@ -21,6 +21,7 @@ def run(ctx):
     ctx.oracle("o_caller_dict", k_schedules.oracle_caller_dict)
     ctx.oracle("o_user_products", k_schedules.oracle_user_products)
     ctx.oracle("o_sq_masked", k_schedules.oracle_sq_masked)
+    ctx.oracle("o_dict_inputs", k_schedules.oracle_dict_inputs)
     return ctx.finish(lambda f: None)
 
 
